@@ -77,6 +77,21 @@ Theorem array_schema_sound : forall (sel sto : positive) (D : Type) (fi : positi
 Proof. exact CC.arr_clause_check_sound. Qed.
 Print Assumptions array_schema_sound.
 
+(* ... and with case analysis (equal / different) on index pairs chosen by the caller: read-over-weak-equivalence
+   lemmas whose validity depends on whether a store index meets the read index.  No classical axiom is needed: the
+   "equal" branch proves the indices different, the "different" branch then gives the contradiction. *)
+Theorem array_case_split_sound : forall (sel sto : positive) (D : Type) (fi : positive -> list D -> D) (den : nat -> D) (g : dag),
+  consistent D fi den g ->
+  (forall a i e, fi sel [fi sto [a; i; e]; i] = e) ->
+  (forall a i e j, i <> j -> fi sel [fi sto [a; i; e]; j] = fi sel [a; j]) ->
+  (forall a i, fi sto [a; i; fi sel [a; i]] = a) ->
+  forall splits clause dcs,
+  arr_clause_split_check sel sto splits g clause dcs = true ->
+  ForallOrdPairs (fun i j => den i <> den j) dcs ->
+  ~ Forall (lit_false D den) clause.
+Proof. exact CC.arr_clause_split_check_sound. Qed.
+Print Assumptions array_case_split_sound.
+
 (* difference-logic conflicts (negative cycles) are Farkas certificates with unit coefficients: the cycle
    x0 - x1 <= c0, x1 - x2 <= c1, ..., checked by la_conflict_check like any other LA conflict; here the 2-cycle *)
 Theorem dl_two_cycle_sound : forall (x y : var) c1 c2, x <> y -> c1 + c2 < 0 ->
@@ -136,6 +151,19 @@ Example array_nonvacuous :
     [(1%positive, []); (2%positive, []); (3%positive, []); (4%positive, [0%nat; 1%nat; 2%nat]); (5%positive, [3%nat; 1%nat])]
     [((4%nat, 2%nat), true)] [] = true.
 Proof. vm_compute. reflexivity. Qed.
+
+(* nodes 0:a 1:k 2:v 3:j 4:store a k v 5:select (store a k v) j 6:store (store a k v) k v 7:select (6) j 8:select a j
+   select (store a k v) j = select (store (store a k v) k v) j   needs the case analysis on (k, j);
+   the clause  a[j] = store(a,k,v)[j]  alone is not valid and is rejected even with the split *)
+Definition ex_arr_dag : dag :=
+  [(1%positive, []); (2%positive, []); (3%positive, []); (6%positive, []);
+   (4%positive, [0%nat; 1%nat; 2%nat]); (5%positive, [4%nat; 3%nat]);
+   (4%positive, [4%nat; 1%nat; 2%nat]); (5%positive, [6%nat; 3%nat]); (5%positive, [0%nat; 3%nat])].
+Example array_split_nonvacuous :
+  arr_clause_check 5%positive 4%positive ex_arr_dag [((5%nat, 7%nat), true)] [] = false /\
+  arr_clause_split_check 5%positive 4%positive [(1%nat, 3%nat)] ex_arr_dag [((5%nat, 7%nat), true)] [] = true /\
+  arr_clause_split_check 5%positive 4%positive [(1%nat, 3%nat)] ex_arr_dag [((8%nat, 5%nat), true)] [] = false.
+Proof. repeat split; vm_compute; reflexivity. Qed.
 
 (* x <= 1 \/ x >= 2 over the integers (branch clause), not valid over the reals *)
 Example lia_nonvacuous :
